@@ -39,8 +39,10 @@ def sites(an, body, obj, path=()):
                         out.append(("case_sibling", p, (sw, sib)))
                     if isinstance(v, dict):
                         out += sites(an, case["body"], v, p)
-                elif nonempty:
-                    out.append(("case_for_empty", p, (sw, nonempty)))
+                else:
+                    out.append(("case_falsy_for_empty", p, None))
+                    if nonempty:
+                        out.append(("case_for_empty", p, (sw, nonempty)))
             continue
         if kind == "field":
             if ins.get("value") is not None:
@@ -70,7 +72,7 @@ def sites(an, body, obj, path=()):
             if v is None:
                 continue
             if ln is not None and ln.isdigit():
-                out.append(("array_fixed_len", p, int(ln)))
+                out.append(("array_fixed_len", p, (int(ln), r)))
             elif ln is not None and r["kind"] != "struct":
                 lf = spec.body_find(body, ln)
                 mx = max_value_of(lf["type"]) + lf.get("offset", 0)
@@ -125,12 +127,18 @@ def apply(an, body, obj, pick, valuegen_body):
         _set(o, path, cur + "x" * (info - len(cur) + pick([1, 2])))
     elif kind == "array_fixed_len":
         cur = list(_get(o, path))
+        info, r = info
         delta = pick([-2, -1, 1, 2])
         n = max(0, info + delta)
         if n == info:
             n = info + 1
         filler = cur[0] if cur else None
         if n > len(cur):
+            if filler is None:
+                # an array declared with length="0" holds nothing: make up one element of its type
+                k = r["kind"]
+                filler = (1 if k in ("int", "enum") else True if k == "bool" else "a" if k == "string"
+                          else b"a" if k == "blob" else valuegen_body(r["decl"]["body"]) if k == "struct" else None)
             if filler is None:
                 return None
             cur = cur + [copy.deepcopy(filler) for _ in range(n - len(cur))]
@@ -144,6 +152,9 @@ def apply(an, body, obj, pick, valuegen_body):
         n = info + pick([1, 2])
         cur = cur + [cur[0]] * (n - len(cur))
         _set(o, path, cur)
+    elif kind == "case_falsy_for_empty":
+        # data for a case that carries none must be None: an empty tuple, list, string, 0 or False is not None
+        _set(o, path, {"__literal__": pick(["tuple", "list", "str", "zero", "false"])})
     elif kind == "case_impostor":
         # an object of an unrelated class that merely has the expected class' NAME
         _set(o, path, {"__impostor__": info})
